@@ -327,7 +327,7 @@ def gen_cargo_toml(rnd):
                     cls.add('cargo-renamed')
                 doc.declared.append({'name': real, 'spec': req, 'hash': None, 'start': s, 'end': e, 'classes': cls, 'token': (s, e)})
             elif form < 0.7:
-                out.w(ind + key + '.version' + eq + q)
+                out.w(ind + key + (rnd.choice([' . version', '. version', ' .version']) if rnd.random() < 0.12 else '.version') + eq + q)
                 s = out.mark()
                 out.w(req)
                 e = out.mark()
